@@ -1,4 +1,5 @@
 import LyModel.Props.C05Fn
+import LyModel.Props.C01FnPrint
 import LyModel.Props.C01FnLyb
 #print axioms LyModel.Props.C05Fn.gen_utf8_are_model
 #print axioms LyModel.Bridge.Utf8.getutf8_eq
@@ -7,3 +8,8 @@ import LyModel.Props.C01FnLyb
 #print axioms LyModel.Props.C01FnLyb.gen_lyb_hash_id_readable
 #print axioms LyModel.Bridge.Lyb.mask_eq
 #print axioms LyModel.Bridge.Lyb.extlen_eq
+#print axioms LyModel.Props.C01FnPrint.gen_printers_are_model
+#print axioms LyModel.Props.C01FnPrint.gen_xml_roundtrip
+#print axioms LyModel.Props.C01FnPrint.gen_json_roundtrip
+#print axioms LyModel.Bridge.Print.xml_dump_text_eq
+#print axioms LyModel.Bridge.Print.json_print_string_eq
